@@ -74,14 +74,14 @@ class NormAngularFourierDomainExpression(NormAngularFourierDomain, Expr):
         """Convert to Fourier domain."""
         from .symbols import f
 
-        result = self.subs(f / dt)
+        result = self.subs(2 * pi * f * dt)
         return result
 
     def angular_fourier(self, **assumptions):
         """Convert to angular Fourier domain."""
         from .symbols import omega
 
-        result = self.subs(omega / dt)
+        result = self.subs(omega * dt)
         return result
 
     def norm_fourier(self, **assumptions):
@@ -89,7 +89,7 @@ class NormAngularFourierDomainExpression(NormAngularFourierDomain, Expr):
         from .symbols import F
         from .sym import dt
 
-        result = self.subs(2 * pi * F / dt)
+        result = self.subs(2 * pi * F)
         return result
 
     def norm_angular_fourier(self, **assumptions):
